@@ -353,5 +353,446 @@ def churn_program(name, n):
             + (ind(post, 4) + "\n" if post else "") + '    (println acc)\n    return 0\n}\nshadow main { assert true }\n')
 
 
+# ------------------------------------------------------------------------------------------------
+# the alias machine: random programs whose only business is sharing heap objects
+# ------------------------------------------------------------------------------------------------
+
+TY = {"S": "string", "AI": "array<int>", "AS": "array<string>", "AA": "array<array<int>>", "AP": "array<P>", "P": "P",
+      "Q": "Q", "U": "U", "TS": "(int, string)", "TA": "(string, array<int>)", "M": "HashMap<string, int>",
+      "F": "fn(array<int>) -> array<int>"}
+ELEM = {"AI": "I", "AS": "S", "AA": "AI", "AP": "P"}
+GLOBALS = {"S": "g_s", "AI": "g_ai", "AS": "g_as", "P": "g_p", "AA": "g_aa"}
+ID_TYPES = ["S", "AI", "AS", "AA", "AP", "P", "Q", "U", "TS", "TA"]
+
+
+def am_decls():
+    out = ["struct P { name: string, xs: array<int>, tags: array<string> }",
+           "struct Q { p1: P, p2: P, label: string }",
+           "union U { Str { us: string }, Arr { uxs: array<int> }, Rec { rp: P }, Non { uz: int } }",
+           'let mut g_s: string = "g"', "let mut g_ai: array<int> = []", "let mut g_as: array<string> = []",
+           'let mut g_p: P = P { name: "gp", xs: [], tags: [] }', "let mut g_aa: array<array<int>> = []", ""]
+    for t in ID_TYPES:
+        T = TY[t]
+        out.append("fn id_%s(x: %s) -> %s { return x }" % (t, T, T))
+        out.append("fn id2_%s(x: %s) -> %s {\n    let y: %s = (id_%s x)\n    return y\n}" % (t, T, T, T, t))
+        out.append("fn id3_%s(x: %s) -> %s { return (id2_%s (id_%s x)) }" % (t, T, T, t, t))
+        out.append("fn pick_%s(a: %s, b: %s, c: bool) -> %s {\n    if c { return a } else { return b }\n}" % (t, T, T, T))
+    for t, g in GLOBALS.items():
+        T = TY[t]
+        out.append("fn keep_%s(x: %s) -> %s {\n    set %s x\n    return x\n}" % (t, T, T, g))
+        out.append("fn swap_%s(x: %s) -> %s {\n    let old: %s = %s\n    set %s x\n    return old\n}" % (t, T, T, T, g, g))
+    out.append("""fn get_AS(a: array<string>, i: int, d: string) -> string {
+    if (< i (array_length a)) { return (at a i) } else { return d }
+}
+fn get_AA(a: array<array<int>>, i: int, d: array<int>) -> array<int> {
+    if (< i (array_length a)) { return (at a i) } else { return d }
+}
+fn get_AP(a: array<P>, i: int, d: P) -> P {
+    if (< i (array_length a)) { return (at a i) } else { return d }
+}
+fn u_s(u: U, d: string) -> string {
+    let mut o: string = d
+    match u {
+        Str(a) => { set o a.us },
+        Arr(b) => { set o d },
+        Rec(c) => {
+            let pp: P = c.rp
+            set o pp.name
+        },
+        Non(e) => { set o (int_to_string e.uz) }
+    }
+    return o
+}
+fn u_xs(u: U, d: array<int>) -> array<int> {
+    let mut o: array<int> = d
+    match u {
+        Str(a) => { set o d },
+        Arr(b) => { set o b.uxs },
+        Rec(c) => {
+            let pp: P = c.rp
+            set o pp.xs
+        },
+        Non(e) => { set o [e.uz] }
+    }
+    return o
+}
+fn u_p(u: U, d: P) -> P {
+    let mut o: P = d
+    match u {
+        Str(a) => { set o d },
+        Arr(b) => { set o d },
+        Rec(c) => { set o c.rp },
+        Non(e) => { set o d }
+    }
+    return o
+}
+fn mk_as(n: int, pre: string) -> array<string> {
+    let mut out: array<string> = []
+    let mut i: int = 0
+    while (< i n) {
+        set out (array_push out (+ pre (int_to_string i)))
+        set i (+ i 1)
+    }
+    return out
+}
+fn mk_p(nm: string, xs: array<int>, tags: array<string>) -> P {
+    return P { name: nm, xs: xs, tags: tags }
+}
+fn twice(f: fn(array<int>) -> array<int>, a: array<int>) -> array<int> { return (f (f a)) }
+fn apply_f(f: fn(array<int>) -> array<int>, a: array<int>) -> array<int> {
+    let r: array<int> = (f a)
+    return r
+}
+fn choose_f(c: bool) -> fn(array<int>) -> array<int> {
+    if c { return id_AI } else { return id2_AI }
+}
+fn dbl(x: int) -> int { return (* x 2) }
+""")
+    return "\n".join(out)
+
+
+WORDS = ["alpha", "beta7", "k1", "zz", "hello", "42", "A", "nano"]
+
+
+class AliasMachine:
+    def __init__(self, rng, size=1.0):
+        self.r = rng
+        self.size = size
+        self.n = 0
+        self.scopes = [[]]        # [(name, type, mutable)]
+        self.counters = []
+        self.workers = []         # (name, ret type)
+        self.depth = 0
+        self.ops = {}
+
+    # ---- bookkeeping ----
+    def fresh(self, p="v"):
+        self.n += 1
+        return "%s%d" % (p, self.n)
+
+    def vars_of(self, t, mutable=False):
+        return [n for sc in self.scopes for (n, vt, m) in sc if vt == t and (m or not mutable)]
+
+    def add(self, name, t, mutable=True):
+        self.scopes[-1].append((name, t, mutable))
+
+    def count(self, op):
+        self.ops[op] = self.ops.get(op, 0) + 1
+
+    # ---- leaves ----
+    def small_int(self):
+        if self.counters and self.r.random() < 0.4:
+            return self.r.choice(self.counters)
+        return str(self.r.choice([0, 0, 1, 1, 2, 3]))
+
+    def boolean(self):
+        r = self.r
+        k = r.random()
+        arrs = [n for t in ("AI", "AS", "AA", "AP") for n in self.vars_of(t)]
+        if k < 0.4 and arrs:
+            return "(== (%% (array_length %s) 2) %d)" % (r.choice(arrs), r.randrange(2))
+        if k < 0.6 and self.counters:
+            return "(< %s %d)" % (r.choice(self.counters), r.randint(1, 2))
+        return r.choice(["true", "false"])
+
+    def word(self):
+        """one of a few target strings, built in one of several ways (interning collisions)"""
+        r = self.r
+        w = r.choice(WORDS)
+        k = r.random()
+        if k < 0.3 or len(w) < 2:
+            if w.isdigit() and r.random() < 0.5:
+                return "(int_to_string %s)" % w
+            if len(w) == 1 and r.random() < 0.5:
+                return "(string_from_char %d)" % ord(w)
+            return '"%s"' % w
+        if k < 0.6:
+            c = r.randint(1, len(w) - 1)
+            return '(+ "%s" "%s")' % (w[:c], w[c:])
+        if k < 0.8:
+            a, b = r.randint(0, 3), r.randint(0, 3)
+            return '(str_substring "%s%s%s" %d %d)' % ("_" * a, w, "#" * b, a, len(w))
+        c = r.randint(1, len(w) - 1)
+        return '(str_concat "%s" "%s")' % (w[:c], w[c:])
+
+    def minimal(self, t):
+        if t == "S":
+            return self.word()
+        if t == "AI":
+            return "[%s]" % ", ".join(str(self.r.randint(0, 9)) for _ in range(self.r.randint(0, 3)))
+        if t == "AS":
+            return "[%s]" % ", ".join(self.word() for _ in range(self.r.randint(1, 3)))
+        if t == "AA":
+            return "[[1, 2], [3]]"
+        if t == "P":
+            return "P { name: %s, xs: [1, 2], tags: [%s] }" % (self.word(), self.word())
+        if t == "AP":
+            return "[%s]" % self.minimal("P")
+        if t == "Q":
+            return "Q { p1: %s, p2: %s, label: %s }" % (self.minimal("P"), self.minimal("P"), self.word())
+        if t == "U":
+            return self.r.choice(["U.Str { us: %s }" % self.word(), "U.Arr { uxs: [4, 5] }", "U.Non { uz: 3 }"])
+        if t == "TS":
+            return "(%d, %s)" % (self.r.randint(0, 9), self.word())
+        if t == "TA":
+            return "(%s, [7, 8])" % self.word()
+        if t == "F":
+            return self.r.choice(["id_AI", "id2_AI", "id3_AI"])
+        raise ValueError(t)
+
+    # ---- expressions ----
+    def e(self, t, d=2):
+        r = self.r
+        vs = self.vars_of(t)
+        if vs and r.random() < (0.5 if d > 0 else 0.85):
+            return r.choice(vs)
+        if d <= 0:
+            if t in GLOBALS and r.random() < 0.3:
+                return GLOBALS[t]
+            return self.minimal(t)
+        alts = []
+        d1 = d - 1
+        if t in ID_TYPES:
+            alts += [lambda: "(%s_%s %s)" % (r.choice(["id", "id2", "id3"]), t, self.e(t, d1)),
+                     lambda: "(pick_%s %s %s %s)" % (t, self.e(t, d1), self.e(t, d1), self.boolean())]
+        if t in GLOBALS:
+            alts += [lambda: GLOBALS[t], lambda: "(keep_%s %s)" % (t, self.e(t, d1)), lambda: "(swap_%s %s)" % (t, self.e(t, d1))]
+        ws = [w for w, rt in self.workers if rt == t]
+        if ws:
+            alts.append(lambda: "(%s %s %s %s %s)" % (r.choice(ws), self.e("AI", d1), self.e("S", d1), self.e("P", d1), self.e("AS", d1)))
+        if t == "S":
+            alts += [self.word, self.word, lambda: "(+ %s %s)" % (self.e("S", 0), self.word())]
+            if self.vars_of("P"):
+                alts += [lambda: "%s.name" % r.choice(self.vars_of("P"))] * 2
+            if self.vars_of("Q"):
+                alts += [lambda: "%s.label" % r.choice(self.vars_of("Q")), lambda: "%s.%s.name" % (r.choice(self.vars_of("Q")), r.choice(["p1", "p2"]))]
+            if self.vars_of("U"):
+                alts.append(lambda: "(u_s %s %s)" % (r.choice(self.vars_of("U")), self.e("S", 0)))
+            if self.vars_of("TS"):
+                alts.append(lambda: "%s.1" % r.choice(self.vars_of("TS")))
+            if self.vars_of("TA"):
+                alts.append(lambda: "%s.0" % r.choice(self.vars_of("TA")))
+            alts.append(lambda: "(get_AS %s %s %s)" % (self.e("AS", d1), self.small_int(), self.e("S", 0)))
+        elif t == "AI":
+            alts += [lambda: self.minimal("AI"), lambda: "(array_slice %s %d %d)" % (self.e("AI", d1), r.randint(0, 2), r.randint(1, 4)),
+                     lambda: "(map %s dbl)" % self.e("AI", d1), lambda: "(twice %s %s)" % (self.e("F", d1), self.e("AI", d1)),
+                     lambda: "(get_AA %s %s %s)" % (self.e("AA", d1), self.small_int(), self.e("AI", 0))]
+            if self.vars_of("P"):
+                alts += [lambda: "%s.xs" % r.choice(self.vars_of("P"))] * 2
+            if self.vars_of("U"):
+                alts.append(lambda: "(u_xs %s %s)" % (r.choice(self.vars_of("U")), self.e("AI", 0)))
+            if self.vars_of("TA"):
+                alts.append(lambda: "%s.1" % r.choice(self.vars_of("TA")))
+            if self.vars_of("F"):
+                alts.append(lambda: "(apply_f %s %s)" % (r.choice(self.vars_of("F")), self.e("AI", d1)))
+        elif t == "AS":
+            alts += [lambda: "[%s]" % ", ".join(self.e("S", d1) for _ in range(r.randint(1, 4))),
+                     lambda: "(mk_as %d %s)" % (r.randint(0, 4), self.e("S", 0)),
+                     lambda: "(array_slice %s %d %d)" % (self.e("AS", d1), r.randint(0, 2), r.randint(1, 4))]
+            if self.vars_of("P"):
+                alts += [lambda: "%s.tags" % r.choice(self.vars_of("P"))] * 2
+            if self.vars_of("M"):
+                alts.append(lambda: "(map_keys %s)" % r.choice(self.vars_of("M")))
+        elif t == "AA":
+            alts += [lambda: "[%s]" % ", ".join(self.e("AI", d1) for _ in range(r.randint(1, 3)))]
+        elif t == "AP":
+            alts += [lambda: "[%s]" % ", ".join(self.e("P", d1) for _ in range(r.randint(1, 3)))]
+        elif t == "P":
+            alts += [lambda: "P { name: %s, xs: %s, tags: %s }" % (self.e("S", d1), self.e("AI", d1), self.e("AS", d1))] * 2
+            alts += [lambda: "(mk_p %s %s %s)" % (self.e("S", d1), self.e("AI", d1), self.e("AS", d1)),
+                     lambda: "(get_AP %s %s %s)" % (self.e("AP", d1), self.small_int(), self.e("P", 0))]
+            if self.vars_of("Q"):
+                alts += [lambda: "%s.%s" % (r.choice(self.vars_of("Q")), r.choice(["p1", "p2"]))] * 2
+            if self.vars_of("U"):
+                alts.append(lambda: "(u_p %s %s)" % (r.choice(self.vars_of("U")), self.e("P", 0)))
+        elif t == "Q":
+            alts += [lambda: "Q { p1: %s, p2: %s, label: %s }" % (self.e("P", d1), self.e("P", d1), self.e("S", d1))] * 2
+        elif t == "U":
+            alts += [lambda: "U.Str { us: %s }" % self.e("S", d1), lambda: "U.Arr { uxs: %s }" % self.e("AI", d1),
+                     lambda: "U.Rec { rp: %s }" % self.e("P", d1), lambda: "U.Non { uz: %d }" % r.randint(0, 9)]
+        elif t == "TS":
+            alts += [lambda: "(%d, %s)" % (r.randint(0, 9), self.e("S", d1))] * 2
+        elif t == "TA":
+            alts += [lambda: "(%s, %s)" % (self.e("S", d1), self.e("AI", d1))] * 2
+        elif t == "F":
+            # a function-typed ARGUMENT must be a name for the type checker; calls yielding functions only initialise lets
+            return r.choice(vs) if vs and r.random() < 0.6 else self.minimal("F")
+        return r.choice(alts)()
+
+    # ---- statements ----
+    def arrays(self, mutable=True):
+        out = [(n, t) for t in ("AI", "AS", "AA", "AP") for n in self.vars_of(t, mutable)]
+        if not self.in_worker:
+            out += [("g_ai", "AI"), ("g_as", "AS"), ("g_aa", "AA")]
+        return out
+
+    def elem_expr(self, at, d=1):
+        et = ELEM[at]
+        return str(self.r.randint(0, 99)) if et == "I" else self.e(et, d)
+
+    def let_stmt(self, pad):
+        t = self.r.choice(["S", "S", "AI", "AS", "AS", "AA", "AP", "P", "P", "Q", "U", "U", "TS", "TA", "F"])
+        v = self.fresh()
+        init = "(choose_f %s)" % self.boolean() if t == "F" and self.r.random() < 0.4 else self.e(t, 2)
+        line = "%slet mut %s: %s = %s" % (pad, v, TY[t], init)
+        self.add(v, t)
+        self.count("let." + t)
+        return [line]
+
+    def stmt(self, ind):
+        r = self.r
+        pad = "    " * ind
+        k = r.random()
+        if k < 0.26:
+            return self.let_stmt(pad)
+        if k < 0.36:
+            c = [(n, t) for sc in self.scopes for (n, t, m) in sc if m and t != "M"]
+            if c:
+                n, t = r.choice(c)
+                self.count("set." + t)
+                return ["%sset %s %s" % (pad, n, self.e(t, 2))]
+        if k < 0.64 and not self.arrays():
+            k = 0.0 if self.in_worker else 0.65
+        if k < 0.26:
+            return self.let_stmt(pad)
+        if k < 0.48:
+            a, t = r.choice(self.arrays())
+            self.count("push." + t)
+            return ["%sset %s (array_push %s %s)" % (pad, a, a, self.elem_expr(t))]
+        if k < 0.54:
+            a, t = r.choice(self.arrays())
+            i = self.small_int()
+            self.count("aset." + t)
+            return ["%sif (< %s (array_length %s)) { (array_set %s %s %s) } else {}" % (pad, i, a, a, i, self.elem_expr(t))]
+        if k < 0.60:
+            c = [(a, t) for a, t in self.arrays() if t != "AI"]
+            if c:
+                a, t = r.choice(c)
+                xs = self.vars_of(ELEM[t], True)
+                out = []
+                if not xs:
+                    x = self.fresh()
+                    out.append("%slet mut %s: %s = %s" % (pad, x, TY[ELEM[t]], self.minimal(ELEM[t])))
+                    self.add(x, ELEM[t])
+                else:
+                    x = r.choice(xs)
+                self.count("pop." + t)
+                return out + ["%sif (> (array_length %s) 0) { set %s (array_pop %s) } else {}" % (pad, a, x, a)]
+        if k < 0.64:
+            a, t = r.choice(self.arrays())
+            i = self.small_int()
+            self.count("remove." + t)
+            return ["%sif (< %s (array_length %s)) { (array_remove_at %s %s) } else {}" % (pad, i, a, a, i)]
+        if k < 0.70 and not self.in_worker:
+            t = r.choice(list(GLOBALS))
+            self.count("gset." + t)
+            return ["%sset %s %s" % (pad, GLOBALS[t], self.e(t, 2))]
+        if k < 0.80:
+            j = r.random()
+            self.count("print")
+            if j < 0.6:
+                return ["%s(println %s)" % (pad, self.e("S", 2))]
+            c = self.arrays(False)
+            if not c:
+                return ["%s(println %s)" % (pad, self.e("S", 2))]
+            a, t = r.choice(c)
+            return ["%s(println (array_length %s))" % (pad, a)]
+        if k < 0.85:
+            ms = self.vars_of("M")
+            if not ms or r.random() < 0.2:
+                m = self.fresh("m")
+                self.add(m, "M", False)
+                self.count("map.new")
+                return ["%slet %s: HashMap<string, int> = (map_new)" % (pad, m)]
+            m = r.choice(ms)
+            if r.random() < 0.65:
+                self.count("map.set")
+                return ["%s(map_set %s %s %d)" % (pad, m, self.e("S", 1), r.randint(0, 50))]
+            kv = self.fresh("k")
+            ke = self.e("S", 1)
+            self.add(kv, "S", False)
+            self.count("map.get")
+            return ["%slet %s: string = %s" % (pad, kv, ke),
+                    "%sif (map_has %s %s) { (println (map_get %s %s)) } else { (println (map_length %s)) }" % (pad, m, kv, m, kv, m)]
+        if k < 0.89:
+            t = r.choice(["P", "AS", "S", "U", "Q", "AA"])
+            self.count("discard." + t)
+            return ["%s(id_%s %s)" % (pad, t, self.e(t, 2))]
+        if k < 0.95 and self.depth < 2:
+            c = self.fresh("i")
+            n = r.randint(2, 4) if self.depth else r.randint(2, int(4 + 8 * self.size))
+            self.count("loop")
+            out = ["%slet mut %s: int = 0" % (pad, c), "%swhile (< %s %d) {" % (pad, c, n)]
+            self.scopes.append([])
+            self.counters.append(c)
+            self.depth += 1
+            for _ in range(r.randint(2, 7)):
+                out += self.stmt(ind + 1)
+            self.depth -= 1
+            self.counters.pop()
+            self.scopes.pop()
+            out += ["%s    set %s (+ %s 1)" % (pad, c, c), "%s}" % pad]
+            return out
+        if self.depth < 2:
+            self.count("if")
+            out = ["%sif %s {" % (pad, self.boolean())]
+            for branch in range(2):
+                self.scopes.append([])
+                self.depth += 1
+                for _ in range(r.randint(1, 3)):
+                    out += self.stmt(ind + 1)
+                self.depth -= 1
+                self.scopes.pop()
+                if branch == 0:
+                    out.append("%s} else {" % pad)
+            out.append("%s}" % pad)
+            return out
+        self.count("print")
+        return ["%s(println %s)" % (pad, self.e("S", 2))]
+
+    def worker(self):
+        name = self.fresh("w")
+        rt = self.r.choice(["S", "AI", "AS", "P", "P", "U", "Q", "AA"])
+        self.in_worker = True
+        self.scopes = [[("a", "AI", False), ("s", "S", False), ("p", "P", False), ("t", "AS", False)]]
+        body = []
+        for _ in range(self.r.randint(2, int(4 + 5 * self.size))):
+            body += self.stmt(1)
+        body.append("    return %s" % self.e(rt, 2))
+        self.in_worker = False
+        text = "fn %s(a: array<int>, s: string, p: P, t: array<string>) -> %s {\n%s\n}\n" % (name, TY[rt], "\n".join(body))
+        return name, rt, text
+
+    def program(self):
+        r = self.r
+        self.in_worker = False
+        parts = [am_decls()]
+        for _ in range(r.choice([0, 1, 1, 2])):
+            w, rt, text = self.worker()
+            parts.append(text)
+            self.workers.append((w, rt))
+        self.scopes = [[]]
+        body = []
+        # a few seed objects so that aliasing starts early
+        for t in r.sample(["S", "AI", "AS", "P", "U", "AA", "AP", "Q"], r.randint(3, 6)):
+            v = self.fresh()
+            body.append("    let mut %s: %s = %s" % (v, TY[t], self.e(t, 2)))
+            self.add(v, t)
+        for _ in range(r.randint(12, int(20 + 40 * self.size))):
+            body += self.stmt(1)
+        for t in ("S", "AS", "P"):
+            for v in self.vars_of(t)[:2]:
+                body.append("    (println %s)" % {"S": v, "AS": "(array_length %s)" % v, "P": "%s.name" % v}[t])
+        body += ["    (println g_s)", "    (println (array_length g_as))", "    (println g_p.name)", "    return 0"]
+        parts.append("fn main() -> int {\n%s\n}\n" % "\n".join(body))
+        return "\n".join(parts)
+
+
+def alias_program(rng, size=1.0):
+    m = AliasMachine(rng, size)
+    text = m.program()
+    return text, m.ops
+
+
 def run(ctx):
     raise NotImplementedError
